@@ -39,6 +39,15 @@ def run(chk):
     if chk.tier == "quick" and len(trip) > 90000: trip = chk.rng.sample(trip, 90000)
     # slot 0 = S, 1 = B, 2 = reference, 3 = resolved back; then dot-normalize (mask PATH) slot 3 and a copy of S (slot 4)
     reqs = [H([('p', 0, s), ('p', 1, b), ('r', 2, 0, 1, m), ('a', 3, 2, 1, 0), ('n', 3, 8), ('p', 4, s), ('n', 4, 8), ('e', 3, 4)]) for s, b, m in trip]
+    # source and base as two views of ONE buffer (same first pointer, the shorter ending inside a component of the longer):
+    # whether two components are equal must never depend on where they are stored
+    for t in ["s://example.com/page.html", "s://u@h.org:8080/v10/x", "s://[::1]:80/a/bc", "s:/a/b/cd"]:
+        for ls in range(len(t) + 1):
+            for lb in range(len(t) + 1):
+                if ls == lb or abs(ls - lb) > 6: continue
+                for m in (0, 1):
+                    trip.append((t[:ls], t[:lb], m))
+                    reqs.append(H([('v', 0, t, 0, ls), ('v', 1, t, 0, lb), ('r', 2, 0, 1, m), ('a', 3, 2, 1, 0), ('n', 3, 8), ('p', 4, t[:ls]), ('n', 4, 8), ('e', 3, 4)]))
     model = lib.run_lines(mdl, reqs)
     shapes = lib.run_lines(mdl, ["shape_c10 %d %s %s" % (m, enc_s(s), enc_s(b)) for s, b, m in trip])
     nontrivial = set(); corr = []
